@@ -27,14 +27,17 @@ class Abort(Exception):
     pass
 
 
-def make_recipes():
+def drop_tree_cache():
     # the package tree cache (C04's subject) is a single-writer database that an aborted run keeps
-    # locked until it is collected; every run here starts without it
+    # locked until it is collected: start the next run without it
     for f in (".bob-tree.sqlite3", ".bob-tree.sqlite3-journal"):
         try:
             os.unlink(f)
         except OSError:
             pass
+
+
+def make_recipes():
     from bob.input import RecipeSet
     from bob.cmds.jenkins.jenkins import jenkinsNameFormatter
     recipes = RecipeSet()
@@ -99,13 +102,14 @@ def valid_deps(pstep):
 
 
 def extract_graph(root_steps):
+    """nodes = package steps by Jenkins variant id, first instance in sanitize's traversal order.
+    Also walks *all* package instances (by stack) and reports variant ids whose instances do not have
+    the same dependency variant ids (the pruning of sanitize and _genJenkinsJobs assumes they have)."""
     index = {}
     nodes = []
     steps = []
-    disagree = 0
 
     def visit(ps):
-        nonlocal disagree
         v = jvid(ps)
         if v in index:
             return index[v]
@@ -119,7 +123,29 @@ def extract_graph(root_steps):
         node["vdeps"] = [index[jvid(d)] for d in valid_deps(ps)]
         return i
     roots = [visit(r) for r in root_steps]
-    return {"nodes": nodes, "roots": roots}, steps, index
+    # all instances
+    seen = set()
+    sig = {}
+    differ = []
+    budget = [20000]
+
+    def walk(ps):
+        key = "/".join(ps.getPackage().getStack())
+        if key in seen or budget[0] <= 0:
+            return
+        seen.add(key)
+        budget[0] -= 1
+        ds = flat_deps(ps)
+        me = (tuple(jvid(d).hex() for d in ds), tuple(jvid(d).hex() for d in valid_deps(ps)))
+        v = jvid(ps).hex()
+        if v in sig and sig[v][0] != me:
+            differ.append({"vid": v[:16], "a": sig[v][1], "b": key})
+        sig.setdefault(v, (me, key))
+        for d in ds:
+            walk(d)
+    for r in root_steps:
+        walk(r)
+    return {"nodes": nodes, "roots": roots, "instances_differ": differ[:5], "instances": len(seen)}, steps, index
 
 
 # ----------------------------------------------------------------------------- IR round trip
@@ -130,7 +156,7 @@ def _scm_props(step, jenkins):
                                   sort_keys=True, default=repr)) for s in step.getScmList()]
 
 
-def step_view(s, full, live=None, ident=False):
+def step_view(s, full, live=None, ident=False, ws_of=None):
     """everything the builder reads from a step, as JSON-able data.  `s` is a StepIR (the decoded job
     specification, or the LazyIR view the local builder uses); `live` is the bob.input step behind the
     LazyIR view, asked directly where the two IR flavours legitimately differ (Jenkins pre-run commands,
@@ -138,28 +164,42 @@ def step_view(s, full, live=None, ident=False):
     if not s.isValid():
         # never executed; all invalid steps without dependencies share one variant id (and one entry of the specification)
         return {"valid": False}
+    def ref_ws(step):
+        # a consumed step (sandbox, tool, argument): steps are shared by variant id, so any workspace that the
+        # project assigns to a step of this variant id is a faithful choice
+        w = step.getWorkspacePath()
+        if ws_of is not None and w in ws_of.get(step.getVariantId(), ()):
+            return "<a workspace of %s>" % step.getVariantId().hex()[:8]
+        return w
     sb = s.getSandbox()
+    if not full:
+        # a dependency built by another job: the builder reads its variant id, workspace, relocatability and
+        # whether it was built in a sandbox (bob/intermediate.py, "Partially dumped")
+        return {"variantId": s.getVariantId().hex(), "valid": True, "workspace": s.getWorkspacePath(),
+                "kind": [s.isCheckoutStep(), s.isBuildStep(), s.isPackageStep()],
+                "relocatable": s.isRelocatable(), "shared": s.isShared(), "sandbox": sb is not None,
+                "execPath": s.getExecPath()}
     v = {
         "variantId": s.getVariantId().hex(), "valid": s.isValid(), "workspace": s.getWorkspacePath(),
         "kind": [s.isCheckoutStep(), s.isBuildStep(), s.isPackageStep()],
         "relocatable": s.isRelocatable(), "shared": s.isShared(), "stablePaths": s.stablePaths(),
-        "sandbox": None if sb is None else {"step": sb.getStep().getVariantId().hex(), "ws": sb.getStep().getWorkspacePath(),
+        "sandbox": None if sb is None else {"step": sb.getStep().getVariantId().hex(), "ws": ref_ws(sb.getStep()),
                                             "paths": sb.getPaths(), "mounts": json.loads(json.dumps(sb.getMounts())),
                                             "user": sb.getUser()},
-        "recipe": s.getPackage().getRecipe().getName(),
         "execPath": s.getExecPath(),
     }
     if ident:
         # steps are shared by variant id: only the package step that was added to the job is tied to one package instance
         v["package"] = s.getPackage().getName()
         v["stack"] = list(s.getPackage().getStack())
+        v["recipe"] = s.getPackage().getRecipe().getName()
     if full:
         tools = s.getTools()
         v.update({
             "fingerprinted": s._isFingerprinted(), "digestScript": s.getDigestScript(),
-            "tools": {n: {"step": t.getStep().getVariantId().hex(), "ws": t.getStep().getWorkspacePath(),
+            "tools": {n: {"step": t.getStep().getVariantId().hex(), "ws": ref_ws(t.getStep()),
                           "path": t.getPath(), "libs": list(t.getLibs())} for n, t in sorted(tools.items())},
-            "arguments": [[a.getVariantId().hex(), a.isValid(), a.getWorkspacePath() if a.isValid() else None] for a in s.getArguments()],
+            "arguments": [[a.getVariantId().hex(), a.isValid(), ref_ws(a) if a.isValid() else None] for a in s.getArguments()],
             "allDepSteps": [[a.getVariantId().hex(), a.isValid()] for a in s.getAllDepSteps()],
             "env": dict(s.getEnv()), "paths": s.getPaths(), "libraryPaths": s.getLibraryPaths(),
             "preRunCmds": (live or s).getJenkinsPreRunCmds(), "postRunCmds": s.getPostRunCmds(),
@@ -260,7 +300,19 @@ def check_ir(jobs, tmpdir):
     from bob.cmds.jenkins.exec import getDependencies
     loop = asyncio.new_event_loop()
     mismatches = []
+    dropped = []
     nfields = 0
+    # every workspace the project assigns, by (plain) variant id
+    ws_of = {}
+    for job in jobs.values():
+        for ps in job.getPackageSteps():
+            pkg = ps.getPackage()
+            for st in (ps, pkg.getBuildStep(), pkg.getCheckoutStep()):
+                if st.isValid():
+                    ws_of.setdefault(st.getVariantId(), set()).add(st.getWorkspacePath())
+                    for d in st.getAllDepSteps():
+                        if d.isValid():
+                            ws_of.setdefault(d.getVariantId(), set()).add(d.getWorkspacePath())
     try:
         live_bids = BuildIds()
         for name, job in sorted(jobs.items()):
@@ -277,8 +329,20 @@ def check_ir(jobs, tmpdir):
             deps = getDependencies(ir)
             preset = {}
             for d in deps:
-                # the live counterpart: any live step with that variant id reachable from the job's packages
                 preset[d.getWorkspacePath()] = None
+            # what the built steps really consume from other jobs
+            rootv = set(jvid(x) for x in roots)
+            for r in roots:
+                rp = r.getPackage()
+                for st in (r, rp.getBuildStep(), rp.getCheckoutStep()):
+                    if st is not r and not st.isValid():
+                        continue
+                    for d in st.getAllDepSteps():
+                        if d.isPackageStep() and d.isValid() and jvid(d) not in rootv and d.getWorkspacePath() not in preset:
+                            dropped.append("%s: exec.getDependencies does not deliver the Build-Id of %s (%s), consumed by %s/%s"
+                                           % (name, d.getPackage().getName(), d.getWorkspacePath(), rp.getName(), st.getLabel()))
+                            preset[d.getWorkspacePath()] = None
+                            deps.append(d)
             live_deps = {}
             for ps in live.values():
                 pkg = ps.getPackage()
@@ -300,8 +364,8 @@ def check_ir(jobs, tmpdir):
                 pairs.append((rp.getBuildStep(), lpk.getBuildStep()))
                 pairs.append((rp.getCheckoutStep(), lpk.getCheckoutStep()))
                 for (a, b) in pairs:
-                    va = step_view(a, True, None, a is r)
-                    vb = step_view(lazy(b), True, b, a is r)
+                    va = step_view(a, True, None, a is r, ws_of)
+                    vb = step_view(lazy(b), True, b, a is r, ws_of)
                     nfields += len(va)
                     for m in diff(vb, va):
                         mismatches.append("%s %s/%s %s" % (name, lp.getPackage().getName(), b.getLabel(), m))
@@ -323,7 +387,7 @@ def check_ir(jobs, tmpdir):
                     mismatches.append("%s dep %s %s" % (name, l.getPackage().getName(), m))
     finally:
         loop.close()
-    return {"fields": nfields, "mismatch": mismatches[:20]}
+    return {"fields": nfields, "mismatch": mismatches[:20], "dropped": dropped[:5]}
 
 
 # ----------------------------------------------------------------------------- the property oracle
@@ -392,30 +456,23 @@ def oracle(jobs, order_error, graph, steps, names):
     return out
 
 
-def classify(graph, names, prefix):
-    """root cause of a name clash, from names only: which distinct abstract jobs share a job name"""
-    by_iname = {}
-    for i, n in enumerate(graph["nodes"]):
-        nm = names.get(n["vid"])
-        if nm:
-            by_iname.setdefault(nm[1], set()).add(nm[0])
-    if any(len(v) > 1 for v in by_iname.values()):
-        return "folded-job-names-collide"
-    # a numbered name (<key>-<k>) that is also the plain name of another recipe/package
-    plain = set()
-    for n in graph["nodes"]:
-        plain.add(prefix + n["recipe"])
-        plain.add(prefix + n["name"])
-    by_dname = {}
-    for n in graph["nodes"]:
-        nm = names.get(n["vid"])
-        if nm:
-            by_dname.setdefault(nm[0], set()).add(n["recipe"])
-    for d, recs in by_dname.items():
-        m = re.fullmatch(r"(.*)-([0-9]+)", d)
-        if m and len(recs) > 1 and d in plain:
-            return "numbered-job-name-collides"
-    return None
+def classify(graph, names, absjobs):
+    """root cause of a failure: do two distinct abstract jobs of the name calculation share one Jenkins job name?"""
+    if not absjobs:
+        return None
+    nodes = graph["nodes"]
+    seen = {}
+    kind = None
+    for a in absjobs:
+        nm = names.get(nodes[a[0]]["vid"])
+        if not nm:
+            continue
+        if nm[1] in seen:
+            k = "numbered-job-name-collides" if seen[nm[1]] == nm[0] else "folded-job-names-collide"
+            kind = k if kind in (None, k) else "folded-job-names-collide"
+        else:
+            seen[nm[1]] = nm[0]
+    return kind
 
 
 # ----------------------------------------------------------------------------- one case
@@ -476,9 +533,21 @@ def run_case(case, tmpdir):
         # the aborted run still holds the package graph cache (single writer): drop it
         import gc
         gc.collect()
+        drop_tree_cache()
     names = {}
     # names straight from the calculator (also when genJenkinsJobs failed): the same class, fed like genJenkinsJobs does
+    recorded = []
+    orig_aj = getattr(J, "AbstractJob", None)
     try:
+        if orig_aj is not None:
+            # observe the abstract jobs of the calculation from outside (no source hook): a recording subclass
+            class RecJob(orig_aj):
+                __slots__ = []
+
+                def __init__(self, *a, **k):
+                    super().__init__(*a, **k)
+                    recorded.append(self)
+            J.AbstractJob = RecJob
         nc = J.JobNameCalculator(cfg.prefix)
         for p in rootPackages:
             nc.addPackage(p)
@@ -488,12 +557,30 @@ def run_case(case, tmpdir):
             names[n["vid"]] = [nc.getJobDisplayName(ps), nc.getJobInternalName(ps)]
     except Exception as e:  # noqa
         res["names_error"] = "%s: %s" % (type(e).__name__, str(e)[:200])
+    finally:
+        if orig_aj is not None:
+            J.AbstractJob = orig_aj
     res["names"] = names
-    res["clash"] = classify(graph, names, cfg.prefix)
+    absjobs = None
+    try:
+        sets = [frozenset(x.pkgs) for x in recorded if x.pkgs]
+        live = [a for a in set(sets) if not any(a < b for b in sets)]
+        absjobs = sorted(sorted(index[v] for v in a) for a in live)
+    except Exception:  # noqa
+        absjobs = None
+    res["abs"] = absjobs
+    res["clash"] = classify(graph, names, absjobs)
     viol = []
+    differ = graph.get("instances_differ")
     if jobs is None:
         if res["gen_error"].startswith("internal:"):
-            viol.append({"what": "genJenkinsJobs raised %s on a project that parses" % res["gen_error"][9:], "sig": "genjobs-internal-error"})
+            sig = "genjobs-internal-error"
+            what = "genJenkinsJobs raised %s on a project that parses" % res["gen_error"][9:]
+            if differ and res["gen_error"].startswith("internal:KeyError") and "getJobDisplayName" in res.get("gen_trace", ""):
+                sig = "same-jenkins-variant-id-different-dependencies"
+                what += (" [package instances %s and %s have the same Jenkins variant-id but dependencies with different Jenkins "
+                         "variant-ids (sandbox); sanitize visits only the first, _genJenkinsJobs both]" % (differ[0]["a"], differ[0]["b"]))
+            viol.append({"what": what, "sig": sig})
     else:
         order_error = None
         try:
@@ -508,7 +595,13 @@ def run_case(case, tmpdir):
         res["jobs"] = {n: {"pkgs": sorted(jvid(ps).hex() for ps in j.getPackageSteps()),
                            "up": sorted(j.getUpstreamJobs()), "root": j.isRoot(),
                            "display": getattr(j, "_JenkinsJob__displayName", None)} for n, j in jobs.items()}
-        viol.extend(oracle(jobs, order_error, graph, steps, names))
+        if differ:
+            # which instance supplies the recorded dependencies is then an accident of the traversal order
+            res["oracle_skipped"] = "instances-differ"
+            if order_error:
+                viol.append({"what": "Jenkins jobs are cyclic: " + order_error, "sig": "job-graph-cyclic"})
+        else:
+            viol.extend(oracle(jobs, order_error, graph, steps, names))
         if res.get("order") == "ok" and not res.get("order_valid"):
             viol.append({"what": "genJenkinsBuildOrder returned an order that is not topological", "sig": "build-order-wrong"})
         if case.get("ir"):
@@ -516,8 +609,11 @@ def run_case(case, tmpdir):
                 res["ir"] = check_ir(jobs, tmpdir)
                 for m in res["ir"]["mismatch"][:3]:
                     viol.append({"what": "job specification differs from the project: " + m, "sig": "jobspec-differs"})
+                for m in res["ir"]["dropped"][:2]:
+                    viol.append({"what": "job specification: " + m + " [a dependency with the variant-id of a built package but another sandbox]",
+                                 "sig": "jobspec-dependency-dropped"})
             except Exception as e:  # noqa
-                res["ir"] = {"fields": 0, "mismatch": []}
+                res["ir"] = {"fields": 0, "mismatch": [], "dropped": []}
                 viol.append({"what": "job specification round trip raised %s: %s" % (type(e).__name__, str(e)[:100]),
                              "sig": "jobspec-internal-error", "trace": traceback.format_exc()[-1500:]})
     # a failure that comes with a name clash is reported under the clash (the root cause)
@@ -534,7 +630,14 @@ def main(argv):
     _load(repo)
     import bob.state
     cases = json.load(open(inp))
-    out = []
+    outf = open(outp, "w")
+
+    class Out:
+        @staticmethod
+        def append(rec):
+            outf.write(json.dumps(rec) + "\n")
+            outf.flush()
+    out = Out
     cwd = None
     import io
     import contextlib
@@ -558,7 +661,8 @@ def main(argv):
     if cwd is not None:
         bob.state.BobState().setSynchronous()
         bob.state.finalize()
-    json.dump(out, open(outp, "w"))
+    outf.write(json.dumps({"id": None, "done": True}) + "\n")
+    outf.close()
 
 
 if __name__ == "__main__":
